@@ -103,7 +103,10 @@ fn c05_extra(tier: Tier, _seed: u64, total: &mut Ctx) -> Result<bool, crate::run
     let max_len = if tier == Tier::Thorough { 140 } else { 100 };
     let mut tasks: Vec<(Vec<Vec<u8>>, Cfg)> = Vec::new();
     for npats in [8usize, 40] {
-        for minlen in [2usize, 3, 4] {
+        for minlen in [2usize, 3, 4, 17] {
+            if minlen > 4 && npats != 8 {
+                continue;
+            }
             // distinct first bytes, bytes chosen so that neighbouring
             // positions do not look like first bytes of the same bucket
             let pats: Vec<Vec<u8>> = (0..npats)
@@ -111,8 +114,14 @@ fn c05_extra(tier: Tier, _seed: u64, total: &mut Ctx) -> Result<bool, crate::run
                     let a = b'a' + (i % 26) as u8;
                     let b = b'0' + (i % 10) as u8;
                     let c = b'A' + ((i * 7) % 26) as u8;
-                    let mut p = vec![a, b, c, b'#', a, b'%'];
-                    p.truncate(if i == 0 { minlen } else { minlen + (i % 3) });
+                    // (no byte common to all patterns: a shared rare byte would
+                    // select the rare-byte prefilter instead of the packed one)
+                    let mut p = vec![a, b, c, b'!' + (i % 14) as u8, a, b':' + (i % 6) as u8];
+                    let target = if i == 0 { minlen } else { minlen + (i % 3) };
+                    while p.len() < target {
+                        p.push(b"etaoinsrhld"[(i + p.len()) % 11]);
+                    }
+                    p.truncate(target);
                     if i >= 26 {
                         p[0] = 0x80 + i as u8;
                     }
@@ -193,13 +202,13 @@ pub const C05: PropDef = PropDef {
     rule: "pattern lists shaped to select each prefilter variant (single pattern -> memmem; <=3 ASCII first bytes -> start-bytes 1/2/3; >3 first bytes with <=3 rare bytes at interior offsets incl. offsets 240..254 -> rare-bytes 1/2/3; \
 >=3 first bytes, min len >= 2, <=16 patterns, leftmost kind -> packed/Teddy) plus unconstrained lists; haystacks of 0..4K bytes built from whole/partial/altered patterns, lone candidate bytes and candidate-free runs; random spans; case-insensitive mix. \
 For each case the same searcher is built with prefilter(true) and prefilter(false); find, find_iter, overlapping steps + iterator (resumed searches), is_match are compared with the reference model on both (hence with each other); earliest mode is checked with the C14 validity predicate on both. \
-A deterministic sweep (enumerated) drives pattern sets that select the packed prefilter in its slim (8 patterns) and fat (40 patterns) flavour with shortest pattern 2/3/4 bytes through the top-level searcher: every haystack length 0..100 x 6 patterns x every plant offset x {full span, span starting 7 bytes in} x prefilter on/off vs the model. The selected variant is read from the Debug output of Automaton::prefilter() for classification only. \
+A deterministic sweep (enumerated) drives pattern sets that select the packed prefilter in its slim (8 patterns) and fat (40 patterns) flavour with shortest pattern 2/3/4 bytes (and 17 bytes, slim only: the Rabin-Karp fallback covers spans up to 19 bytes there) through the top-level searcher: every haystack length 0..100 x 6 patterns x every plant offset x {full span, span starting 7 bytes in} x prefilter on/off vs the model. The selected variant is read from the Debug output of Automaton::prefilter() for classification only. \
 Non-trivial = a prefilter was selected, the span contains a candidate byte position where no occurrence starts, and at least one occurrence exists. Distinct = distinct case fingerprint.",
     assumptions: &[
         "earliest-mode results are specified only as a validity predicate (C14); a packed prefilter legitimately returns the full leftmost match in earliest mode, so on/off equality is not demanded there",
         "variant classification depends on Debug formatting; it never produces a violation",
     ],
-    cases_quick: 240_000,
+    cases_quick: 200_000,
     cases_thorough: 3_000_000,
     strategy: c05_strategy,
     check: c05_check,
